@@ -32,7 +32,8 @@ from hsim.worlds.udp import Arrival, UdpWorld
 
 PROPERTY = "C14"
 CHUNK = {"quick": 12, "thorough": 30}
-PROBES = ["orphan_adopted", "cascade_depth_2", "local_id_reuse_after_kill", "cross_region_move",
+PROBES = ["avatar_child_announced", "seat_killed_under_avatar", "avatar_orphan_survives_kill_of_unknown_seat",
+          "orphan_adopted", "cascade_depth_2", "local_id_reuse_after_kill", "cross_region_move",
           "kill_unknown_with_orphans", "pending_both_kinds_on_killed_object", "same_object_twice_in_one_message",
           "reparent", "kill_of_parent", "teardown_with_pending", "precondition_broken", "duplicate_update_delivered",
           "two_updates_same_instant_with_pending_future", "timeout_cancelled_future", "local_id_changed_same_region",
@@ -46,7 +47,8 @@ COMPONENTS = {
     "stub": ["simulator scene generator", "network", "operator issuing object requests", "viewer (SOCKS + UseCircuitCode only)"],
 }
 ASSUMPTIONS = [
-    "avatars are never generated as children (the code deliberately exempts seated avatars from cascading kills)",
+    "seated avatars (PCode AVATAR children) are modelled the way the code and the reference viewer treat them: a "
+    "cascading kill skips them and what hangs off them; they stay tracked as orphans of the killed seat",
     "the precondition of the property is evaluated on the delivered history; runs where duplication/reordering/loss "
     "break it stop being judged from that point (counted as precondition_broken)",
     "child order is not judged (only set equality, no duplicates, both directions)",
@@ -71,6 +73,8 @@ def gen_plan(rng: random.Random, tier: str) -> dict:
         "auto_request": rng.random() < 0.5,
         # let the proxy request objects it only heard about through cached / terse updates (0.2 s debounce timer)
         "auto_missing": rng.random() < 0.3,
+        # seated avatars: children that the code (like the reference viewer) exempts from cascading kills
+        "avatars": rng.random() < 0.35,
         "p_delay": rng.choice([0.0, 0.3, 0.6]) if lossy else 0.0,
         "p_dup": rng.choice([0.0, 0.1, 0.25]) if lossy else 0.0,
         "p_drop": rng.choice([0.0, 0.0, 0.05]) if lossy else 0.0,
@@ -81,6 +85,7 @@ def gen_plan(rng: random.Random, tier: str) -> dict:
     alive = [True, True]
     pending_parents: List[Set[int]] = [set(), set()]              # locals named as parent but not yet announced
     ever_killed: List[Set[int]] = [set(), set()]
+    avatars: List[Set[int]] = [set(), set()]      # local ids that are avatars (never given children)
     steps = []
     t = 0.3
     salt = 0
@@ -128,7 +133,7 @@ def gen_plan(rng: random.Random, tier: str) -> dict:
                 free_locals.remove(local)
                 full = rng.choice(free_fulls)
                 free_fulls.remove(full)
-                cands = [l for l in scene[r] if depth(r, l) < 3]
+                cands = [l for l in scene[r] if depth(r, l) < 3 and l not in avatars[r]]
                 y = rng.random()
                 if y < 0.4 or (not cands and not free_locals):
                     parent = 0
@@ -141,7 +146,11 @@ def gen_plan(rng: random.Random, tier: str) -> dict:
                     parent = 0
                 scene[r][local] = (full, parent)
                 where[full] = (r, local)
-                entries.append([local, full, parent])
+                if cfg["avatars"] and parent and rng.random() < 0.35:
+                    avatars[r].add(local)
+                    entries.append([local, full, parent, "av"])
+                else:
+                    entries.append([local, full, parent])
             if rng.random() < 0.1 and entries:
                 entries.append(list(entries[0]))            # same object twice in one message
             steps.append({"at": t, "op": "upd", "r": r, "form": rng.choice(["full", "full", "compressed"]),
@@ -163,14 +172,16 @@ def gen_plan(rng: random.Random, tier: str) -> dict:
             full, parent = scene[r][local]
             y = rng.random()
             if y < 0.45:
-                cands = [l for l in scene[r] if l != local and l not in descendants(r, local) and depth(r, l) < 3]
+                cands = [l for l in scene[r] if l != local and l not in descendants(r, local) and depth(r, l) < 3
+                         and l not in avatars[r]]
                 parent = rng.choice(cands + [0]) if cands else 0
                 scene[r][local] = (full, parent)
             repeat = y > 0.85
+            ent = [local, full, parent, "av"] if local in avatars[r] else [local, full, parent]
             steps.append({"at": t, "op": "upd", "r": r, "form": rng.choice(["full", "compressed"]),
-                          "entries": [[local, full, parent]], "salt": (salt - 1 if repeat else salt), "fate": fate()})
+                          "entries": [ent], "salt": (salt - 1 if repeat else salt), "fate": fate()})
             if rng.random() < 0.15:
-                steps.append({"at": t, "op": "upd", "r": r, "form": "full", "entries": [[local, full, parent]],
+                steps.append({"at": t, "op": "upd", "r": r, "form": "full", "entries": [list(ent)],
                               "salt": salt + 1000, "fate": {}})
         elif x < 0.58 and (scene[r] or rng.random() < 0.3):
             known = sorted(scene[r])
@@ -197,13 +208,14 @@ def gen_plan(rng: random.Random, tier: str) -> dict:
             for local in locals_:
                 if local in scene[r]:
                     for d_ in descendants(r, local) + [local]:
-                        if d_ in scene[r]:
+                        if d_ in scene[r] and (d_ == local or d_ not in avatars[r]):
                             where.pop(scene[r][d_][0], None)
                             del scene[r][d_]
                             ever_killed[r].add(d_)
+                            avatars[r].discard(d_)
                 else:
                     # orphans waiting for it die with it
-                    for l2 in [l for l, (f, p) in scene[r].items() if p == local]:
+                    for l2 in [l for l, (f, p) in scene[r].items() if p == local and l not in avatars[r]]:
                         for d_ in descendants(r, l2) + [l2]:
                             if d_ in scene[r]:
                                 where.pop(scene[r][d_][0], None)
@@ -213,7 +225,7 @@ def gen_plan(rng: random.Random, tier: str) -> dict:
             steps.append({"at": t, "op": "kill", "r": r, "locals": locals_, "fate": fate()})
         elif x < 0.78 and scene[r] and alive[1 - r]:
             # cross-region move of a childless object
-            leafs = [l for l in scene[r] if not any(p == l for (_f, p) in scene[r].values())]
+            leafs = [l for l in scene[r] if not any(p == l for (_f, p) in scene[r].values()) and l not in avatars[r]]
             dst_free = [l for l in range(1, N_LOCALS + 1) if l not in scene[1 - r]]
             if not leafs or not dst_free:
                 continue
@@ -240,6 +252,7 @@ def gen_plan(rng: random.Random, tier: str) -> dict:
             for local, (full, _p) in list(scene[r].items()):
                 where.pop(full, None)
             scene[r].clear()
+            avatars[r].clear()
             pending_parents[r].clear()
             steps.append({"at": t, "op": "teardown", "r": r})
     t = round(t + 0.5, 4)
@@ -279,7 +292,7 @@ def simplify_plan(plan):
 # ----------------------------------------------------------------------------------------
 class SceneModel:
     def __init__(self):
-        self.regions: Dict[int, Dict[int, List[int]]] = {}   # ridx -> local -> [full, parent]
+        self.regions: Dict[int, Dict[int, List[int]]] = {}   # ridx -> local -> [full, parent, is_avatar]
         self.where: Dict[int, Tuple[int, int]] = {}           # full -> (ridx, local)
         self.broken: Optional[str] = None
 
@@ -292,8 +305,10 @@ class SceneModel:
         objs = self.regions[r]
         while stack:
             x = stack.pop()
-            for l2, (f2, p2) in objs.items():
+            for l2, (f2, p2, av2) in objs.items():
                 if p2 == x and l2 not in out and l2 != local:
+                    if av2:
+                        continue     # a seated avatar (and whatever hangs off it) survives its seat's kill
                     out.append(l2)
                     stack.append(l2)
         return out
@@ -312,11 +327,13 @@ class SceneModel:
         """Returns [(region, local)] of objects *created* by this message."""
         created = []
         if r not in self.regions:
-            if any(f in self.where for (_l, f, _p) in entries):
+            if any(e[1] in self.where for e in entries):
                 self.broken = "update from a torn-down region names a live object"
             return created
         objs = self.regions[r]
-        for local, full, parent in entries:
+        for entry in entries:
+            local, full, parent = entry[:3]
+            av = len(entry) > 3 and entry[3] == "av"
             if full in self.where:
                 r0, l0 = self.where[full]
                 if r0 != r:
@@ -325,7 +342,7 @@ class SceneModel:
                     if local in objs and objs[local][0] != full:
                         self.broken = "local id given to two live objects (move)"
                         return created
-                    objs[local] = [full, parent]
+                    objs[local] = [full, parent, av]
                     self.where[full] = (r, local)
                 elif l0 != local:
                     probes("local_id_changed_same_region")
@@ -333,7 +350,7 @@ class SceneModel:
                         self.broken = "local id given to two live objects (renumber)"
                         return created
                     del objs[l0]
-                    objs[local] = [full, parent]
+                    objs[local] = [full, parent, av]
                     self.where[full] = (r, local)
                 else:
                     if objs[local][1] != parent:
@@ -343,7 +360,7 @@ class SceneModel:
                 if local in objs:
                     self.broken = "local id given to two live objects"
                     return created
-                objs[local] = [full, parent]
+                objs[local] = [full, parent, av]
                 self.where[full] = (r, local)
                 created.append((r, local))
             if parent == local or self._cycle(r, local):
@@ -361,6 +378,8 @@ class SceneModel:
             touched.append(local)
             if local in objs:
                 desc = self.descendants(r, local)
+                if any(p == local and av_ for (f, p, av_) in objs.values()):
+                    probes("seat_killed_under_avatar")
                 if desc:
                     probes("kill_of_parent")
                     if any(objs[d][1] != local for d in desc):
@@ -370,7 +389,9 @@ class SceneModel:
                     del objs[d]
                     touched.append(d)
             else:
-                orphans = [l for l, (f, p) in objs.items() if p == local]
+                if any(p == local and av_ for (f, p, av_) in objs.values()):
+                    probes("avatar_orphan_survives_kill_of_unknown_seat")
+                orphans = [l for l, (f, p, av_) in objs.items() if p == local and not av_]
                 if orphans:
                     probes("kill_unknown_with_orphans")
                 for o in orphans:
@@ -384,7 +405,7 @@ class SceneModel:
         return touched
 
     def teardown(self, r):
-        for local, (full, _p) in self.regions.pop(r, {}).items():
+        for local, (full, _p, _av) in self.regions.pop(r, {}).items():
             self.where.pop(full, None)
 
 
@@ -555,7 +576,7 @@ def run_plan(plan: dict) -> RunResult:
                     return violate("C14/index/local-id-set", event=event, region=r, want=sorted(objs),
                                    got=sorted(got_locals))
                 want_orphans: Dict[int, Set[int]] = {}
-                for local, (full, parent) in objs.items():
+                for local, (full, parent, _av) in objs.items():
                     obj = st_.localid_lookup[local]
                     if obj.FullID != O.full_id(full) or obj.LocalID != local:
                         return violate("C14/index/identity", event=event, region=r, local=local,
@@ -567,7 +588,7 @@ def run_plan(plan: dict) -> RunResult:
                     if (obj.ParentID or 0) != parent:
                         return violate("C14/links/parent-id", event=event, region=r, local=local, got=obj.ParentID,
                                        want=parent)
-                    want_children = {l2 for l2, (_f2, p2) in objs.items() if p2 == local}
+                    want_children = {l2 for l2, (_f2, p2, _a2) in objs.items() if p2 == local}
                     if len(obj.ChildIDs) != len(set(obj.ChildIDs)) or set(obj.ChildIDs) != want_children:
                         return violate("C14/links/children", event=event, region=r, local=local,
                                        got=list(obj.ChildIDs), want=sorted(want_children))
@@ -620,13 +641,15 @@ def run_plan(plan: dict) -> RunResult:
                 # probes about timing
                 inst = (now, r)
                 locals_in = {e[0] for e in meaning[2]}
+                if any(len(e) > 3 for e in meaning[2]):
+                    res.probe("avatar_child_announced")
                 if state["last_upd_instant"] and state["last_upd_instant"][0] == inst and \
                         state["last_upd_instant"][1] & locals_in and any(
                         f["r"] == r and f["local"] in locals_in and f["t"] < now for f in futures):
                     res.probe("two_updates_same_instant_with_pending_future")
                 state["last_upd_instant"] = (inst, locals_in)
                 before = {rr: set(o.keys()) for rr, o in model.regions.items()}
-                had_orphans = {p for (_f, p) in model.regions.get(r, {}).values() if p and p not in model.regions.get(r, {})}
+                had_orphans = {p for (_f, p, _a) in model.regions.get(r, {}).values() if p and p not in model.regions.get(r, {})}
                 created = model.apply_update(r, meaning[2], probes)
                 if model.broken is None:
                     if any(l in had_orphans for (_r, l) in created):
